@@ -197,7 +197,9 @@ def run_given(ctx, name, strategy, fn, max_examples, shrink=True):
     max_examples = max(1, int(max_examples))
 
     def test(case):
-        if ctx.out_of_time():
+        # once a failure has been seen the time budget no longer short-circuits cases (shrinking must see a
+        # deterministic test); before that, cases beyond the budget are skipped and counted
+        if not cur.get("failed") and ctx.out_of_time():
             return
         cur["case"] = case
         ctx.evaluations += 1
@@ -205,6 +207,11 @@ def run_given(ctx, name, strategy, fn, max_examples, shrink=True):
             fn(ctx, case)
         except KnownSkip:
             return
+        except Violation as v:
+            if not cur.get("failed"):
+                cur["failed"] = True
+                cur["first"] = (case, v)
+            raise
 
     test = given(strategy)(test)
     test = hyp_settings(max_examples, shrink=shrink)(test)
@@ -215,7 +222,12 @@ def run_given(ctx, name, strategy, fn, max_examples, shrink=True):
     except Violation as v:
         record_violation(ctx, name, cur.get("case"), v)
     except hypothesis.errors.HypothesisException as e:
-        raise HarnessError("hypothesis error in %s: %r" % (name, e))
+        if cur.get("first") is not None:
+            # a violation was observed but did not reproduce while shrinking (non-deterministic behaviour of the code
+            # under test): report the first observed failing case
+            record_violation(ctx, name, cur["first"][0], cur["first"][1])
+        else:
+            raise HarnessError("hypothesis error in %s: %r" % (name, e))
     except RecursionError as e:
         raise HarnessError("RecursionError in %s: %s" % (name, traceback.format_exc()[-1500:]))
     except Exception as e:
